@@ -4,13 +4,13 @@ set -e
 id=$1; n=$2; needs=$3; ran=$4; det=$5
 d=/verif/seeded/$id-$n
 mkdir -p $d
-cp /tmp/seed/$id/out/patch.diff $d/patch.diff
-rm -rf $d/demo; cp -r /tmp/seed/$id/out/demo $d/demo
-cp /tmp/seed/$id/out/notes.md $d/notes.md
+cp ${SEEDBASE:-/tmp/seed}/$id/out/patch.diff $d/patch.diff
+rm -rf $d/demo; cp -r ${SEEDBASE:-/tmp/seed}/$id/out/demo $d/demo
+cp ${SEEDBASE:-/tmp/seed}/$id/out/notes.md $d/notes.md
 python3 - "$id" "$needs" "$ran" "$det" "$d" <<'P'
 import json,sys
 id,needs,ran,det,d=sys.argv[1:]
 json.dump({"property":id,"breaks":"see notes.md","needs_to_manifest":needs,"confirmed_by":ran,"detected_by_check":det},open(d+"/meta.json","w"),indent=1)
 P
-git -C /repo worktree remove --force /tmp/seed/$id/wt 2>/dev/null || true
+git -C /repo worktree remove --force ${SEEDBASE:-/tmp/seed}/$id/wt 2>/dev/null || true
 echo kept $d
